@@ -227,6 +227,9 @@ namespace
             ops.push(op);
         }
         plan["ops"] = ops;
+        // (drawn last) the periodically evaluated predicate takes time: a yield point between reading the flag and
+        // returning, so that terminate() / flips of other threads can land while the poller is inside the call
+        plan["yield_in_predicate"] = g.chance(0.5);
         return plan;
     }
 
@@ -552,6 +555,7 @@ sim::CaseResult PtcSim::run(const sim::Options &o, const Json &plan)
     for (int i = 0; i < nflags; i++)
         flags.emplace_back(new std::atomic<bool>(false));
     std::vector<long> fnCalls((size_t)nflags, 0);
+    const bool yieldInPredicate = plan.getb("yield_in_predicate");
 
     Model M;
     M.flags.assign((size_t)nflags, 0);
@@ -595,9 +599,12 @@ sim::CaseResult PtcSim::run(const sim::Options &o, const Json &plan)
             ptc.emplace_back(new ob::PlannerTerminationCondition([f] { return f->load(); }));
         else if (m.kind == "periodic")
             ptc.emplace_back(new ob::PlannerTerminationCondition(
-                [f, calls] {
+                [f, calls, yieldInPredicate] {
                     ++*calls;
-                    return f->load();
+                    bool v = f->load();
+                    if (yieldInPredicate)
+                        ss::yield();
+                    return v;
                 },
                 m.period));
         else if (m.kind == "timed")
@@ -790,8 +797,10 @@ sim::CaseResult PtcSim::run(const sim::Options &o, const Json &plan)
     for (int t : tids)
         ss::join(t);
 
-    // settle, then judge the periodic forms for liveness: "no later than one period afterwards"
-    if (res.vclass.empty())
+    // settle, then judge the periodic forms for liveness: "no later than one period afterwards". (Not with a predicate that
+    // yields inside: "one period" presumes an instantaneous predicate and pollers that are not kept from running by
+    // another poller that is always runnable; those cases judge the safety clauses op by op only.)
+    if (res.vclass.empty() && !yieldInPredicate)
     {
         double maxPeriod = 0;
         for (auto &n : M.nodes)
